@@ -56,6 +56,9 @@ def base_module(key="nv_reg", anc=False):
     return m
 
 
+WARN_ONLY = ("func-other-order", "func-fewer-args", "units-with-space")
+
+
 def mutants():
     """all single-fault mutants of a valid module (with and without
     ancillaries)"""
@@ -112,6 +115,19 @@ def mutants():
     out.append(("units-with-space",
                 lambda m: setattr(m, "parameter_units",
                                   ["Pa ", "m", "m", "N"]), False))
+    # a fault together with a deviation that only warns: still rejected
+    single = list(out)
+    for wn in WARN_ONLY:
+        wmut = [f for n_, f, _ in single if n_ == wn][0]
+        for n_, f, anc in single:
+            if n_ in WARN_ONLY or n_.startswith("valid") or anc \
+                    or n_.startswith("func-"):
+                continue
+
+            def both(m, f=f, wmut=wmut):
+                wmut(m)
+                f(m)
+            out.append((f"{wn}+{n_}", both, False))
     return out
 
 
@@ -178,7 +194,9 @@ def check_mutants(run):
         # argument order/number of model_func and unit spelling only warn
         valid = name in ("valid", "valid-anc", "func-other-order",
                          "func-fewer-args", "units-with-space",
-                         "duplicate:parameter_units")
+                         "duplicate:parameter_units") or (
+            "+" in name and name.split("+", 1)[1]
+            == "duplicate:parameter_units")
         if valid:
             if out != "ok" or reg != "ok" or key not in after:
                 run.failing(SITE, fkey, f"valid module ({name}) rejected: "
